@@ -1,6 +1,7 @@
 package sim
 
 import (
+	"bytes"
 	"context"
 	"fmt"
 	"math"
@@ -8,6 +9,7 @@ import (
 	"sort"
 	"time"
 
+	"github.com/bool64/cache"
 	zs "github.com/bool64/cache/zzverifsim"
 )
 
@@ -31,7 +33,7 @@ func genC10(r *rand.Rand, _ int, _ string) *Scenario {
 	sc.JitterMode = pick(r, "zero", "half", "max", "prng", "prng")
 
 	years := 365 * 24 * 3600 * sec
-	cfgTTLs := []int64{0, -1, 1, 7, 999, ms, sec, 17 * sec, 3600 * sec, 24 * 3600 * sec, years, 10 * years}
+	cfgTTLs := []int64{0, -1, 1, 7, 999, ms, sec, 17 * sec, 3600 * sec, 24 * 3600 * sec, years, 10 * years, -2, -999, -ms, -sec, -24 * 3600 * sec, -years}
 	be.Cfg = BEConfig{TTLNs: pick(r, cfgTTLs...), Jitter: pick(r, -1.0, 0, 0, 0.01, 0.3, 0.5, 1, r.Float64()), Strategy: r.IntN(3)}
 
 	if be.Cfg.Jitter == 0 && chance(r, 0.5) {
@@ -267,7 +269,7 @@ func genC11(r *rand.Rand, _ int, _ string) *Scenario {
 		case x < 6:
 			be.Root = append(be.Root, BEOp{Kind: "read", Key: r.IntN(len(be.Keys))})
 		case x < 7:
-			be.Root = append(be.Root, BEOp{Kind: pick(r, "expireAll", "delete", "store"), Key: r.IntN(len(be.Keys))})
+			be.Root = append(be.Root, BEOp{Kind: pick(r, "expireAll", "delete", "store", "restoreNever", "restoreNever"), Key: r.IntN(len(be.Keys))})
 		default:
 			be.Root = append(be.Root, BEOp{Kind: "sleep", SleepNs: pick(r, iv/3, iv+ms, 2*iv+ms, dea+iv+ms, 3*iv)})
 		}
@@ -297,6 +299,14 @@ func (r *beRun) modeJanitor() {
 
 		if op.Kind != "sleep" {
 			time.Sleep(1)
+
+			if op.Kind == "restoreNever" {
+				// an entry without expiry (E=0) arrives through Restore, whatever the target's TimeToLive
+				r.restoreNever(m, i, op)
+				out.probe("entry_without_expiry_restored")
+
+				continue
+			}
 
 			rec := r.exec(0, i, op)
 
@@ -424,8 +434,9 @@ func genC12(r *rand.Rand, _ int, _ string) *Scenario {
 	be := sc.BE
 	iv := 60 * sec
 	limit := uint64(pick(r, 0, 1, 2, 5, 10, 40, 120, 300))
+	dea := pick(r, 1000*24*3600*sec, 1000*24*3600*sec, 3600*sec)
 	be.Cfg = BEConfig{
-		TTLNs: pick(r, int64(0), 3600*sec, -1), Jitter: -1, DeleteExpiredAfterNs: 1000 * 24 * 3600 * sec, JanitorIntervalNs: iv,
+		TTLNs: pick(r, int64(0), 3600*sec, -1), Jitter: -1, DeleteExpiredAfterNs: dea, JanitorIntervalNs: iv,
 		CountSoftLimit: limit, EvictFraction: pick(r, 0, 0.01, 0.1, 0.25, 0.5, 0.9, 1, r.Float64()), Strategy: r.IntN(3), Stats: chance(r, 0.5),
 	}
 
@@ -457,6 +468,12 @@ func genC12(r *rand.Rand, _ int, _ string) *Scenario {
 		op := BEOp{Kind: "write", Key: k}
 		if be.Cfg.Strategy == 0 && chance(r, 0.7) {
 			op.HasTTL, op.TTLNs = true, int64(1+r.IntN(5000))*sec
+		}
+
+		// entries that expired longer ago than DeleteExpiredAfter: purged by the same cleanup cycle,
+		// they must count neither for the breach nor for the amount evicted
+		if dea == 3600*sec && chance(r, 0.25) {
+			op.HasTTL, op.TTLNs = true, -(dea + int64(1+r.IntN(5000))*sec)
 		}
 
 		be.Root = append(be.Root, op)
@@ -565,6 +582,35 @@ func (r *beRun) modeEvict() {
 
 		cycles++
 		after := walkSet()
+
+		// entries expired longer than DeleteExpiredAfter are purged by the cleanup job before
+		// eviction is considered: they are not part of the population eviction works on
+		bLo := r.janitor.LastWakeNs - cfg.DeleteExpiredAfterNs
+		bHi := r.janitor.LastBlockNs - cfg.DeleteExpiredAfterNs
+		ambiguous := false
+
+		for k, exp := range before {
+			if exp == 0 {
+				continue
+			}
+
+			switch {
+			case exp < bLo:
+				if _, still := after[k]; still {
+					ambiguous = true // C11's subject (not-deleted); do not judge eviction on top of it
+				}
+
+				delete(before, k)
+				delete(acc, k)
+				out.probe("long_expired_entry_purged_in_eviction_cycle")
+			case exp <= bHi:
+				ambiguous = true
+			}
+		}
+
+		if ambiguous {
+			continue
+		}
 
 		var removed, kept []string
 
@@ -687,4 +733,34 @@ func (r *beRun) evictMetric() float64 {
 	}
 
 	return s
+}
+
+// restoreNever dumps a one-entry UnlimitedTTL cache of the same family and restores it into the
+// cache under test: the entry has no expiry (E == 0) and must survive every cleanup cycle.
+func (r *beRun) restoreNever(m *refModel, i int, op *BEOp) {
+	cfg := r.cacheConfig()
+	cfg.TimeToLive = cache.UnlimitedTTL
+	cfg.DeleteExpiredJobInterval = farFuture
+	cfg.Stats, cfg.Logger, cfg.EvictionNeeded = nil, nil, nil
+
+	src := newBackend(r.sc.Backend, cfg)
+	key := string(r.sc.Keys[op.Key])
+	tok := Tok{K: key, ID: fmt.Sprintf("w0.%d", i)}
+
+	_ = src.write(context.Background(), []byte(key), tok)
+
+	var buf bytes.Buffer
+
+	_, _ = src.dump(&buf)
+	src.stop()
+
+	if n, err := r.bk.restore(&buf); n != 1 || err != nil {
+		r.e.out.Internal = fmt.Sprintf("restore of a one-entry dump gave (%d, %v)", n, err)
+
+		return
+	}
+
+	now := time.Now().UnixNano()
+	m.m[key] = &mEntry{val: tok, never: true, writeLo: now, writeHi: now}
+	r.e.logf("restored %q without expiry", key)
 }
